@@ -51,8 +51,14 @@ Call(e) == /\ out' = IF switch /\ e.c \in Rejects(e.f) THEN "CheckError"
            /\ switch' = switch
            /\ hist' = Append(hist, [ev |-> "call", m |-> e.m, f |-> e.f, c |-> e.c, out |-> out', sw |-> switch])
 
+(* a second, private instance of the switch class is created and assigned: the package-wide switch is not affected *)
+OtherInstance(v) == /\ switch' = switch
+                    /\ out' = IF v \in ValidAssign THEN "ok" ELSE "ValueError"
+                    /\ hist' = Append(hist, [ev |-> "other_instance", v |-> v, out |-> out', sw |-> switch])
+
 Next == /\ Len(hist) < Depth
         /\ \/ \E v \in AssignValues : Assign(v)
+           \/ \E v \in {"True", "False", "int1"} : OtherInstance(v)
            \/ \E e \in CallEvents : Call(e)
 Spec == Init /\ [][Next]_vars
 
